@@ -46,12 +46,33 @@ Definition vendor_body_has_spare (d : list byte) : bool :=
   | _ => false
   end.
 
+(* The same for the message embedded in a bundle-add when bundle properties follow it: since fix
+   D47 the embedded message is parsed from data[n:n+its length], a slice whose capacity reaches
+   over the properties; a corrupted nested length that overruns the message reads into them
+   where the model panics.  Looked for at every nesting level. *)
+Fixpoint bundle_inner_has_spare (fuel : nat) (d : list byte) : bool :=
+  match fuel with
+  | O => false
+  | S f =>
+    match d with
+    | _ :: ty :: l1 :: l0 :: _ :: _ :: _ :: _ :: v3 :: v2 :: v1 :: v0 :: e3 :: e2 :: e1 :: e0 :: _ =>
+      let len := N.min (b2n l1 * 256 + b2n l0) (N.of_nat (length d)) in
+      if N.eqb (b2n ty) 4 && N.eqb (b2n v3) 79 && N.eqb (b2n v2) 78 && N.eqb (b2n v1) 70 && N.eqb (b2n v0) 0
+         && N.eqb (b2n e3) 0 && N.eqb (b2n e2) 0 && N.eqb (b2n e1) 8 && N.eqb (b2n e0) 253 then
+        let ml := b2n (nth 26 d x00) * 256 + b2n (nth 27 d x00) in
+        if 24 + ml <? len then true
+        else bundle_inner_has_spare f (firstn (N.to_nat ml) (skipn 24 d))
+      else false
+    | _ => false
+    end
+  end.
+
 (* C07: a message or an error *)
 Definition check07 (c : caseD) : verdict :=
   match c with
   | Par input oc re lenv cmp same =>
     let d := unpack input in
-    mkv (vendor_body_has_spare d || model_agrees d (n_of oc) (unpack re) (n_of lenv) false) (n_of oc <? 2)
+    mkv (vendor_body_has_spare d || bundle_inner_has_spare 40 d || model_agrees d (n_of oc) (unpack re) (n_of lenv) false) (n_of oc <? 2)
   | GoOnly oc => mkv true (n_of oc <? 2)
   | _ => VBad
   end.
